@@ -28,6 +28,10 @@ for k in KINDS:
 CLS_KINDS["Specialization"] = {"Specialization", "Mention"}
 
 
+# local parts that contain a namespace URI again (a URL carried in a query string)
+NESTED_LOCALS = ["r?u=http://a/z", "http://other/x"]
+
+
 def expected_indices(cont, uri):
     return [i for i, r in enumerate(cont.records) if r.identifier is not None and r.identifier.uri == uri]
 
@@ -131,12 +135,12 @@ def make_case(ctx, g):
 
 
 def run(ctx):
-    g = Gen(ctx.seed * 1000003 + 18)
+    g = Gen(ctx.seed * 1000003 + 18, extra_locals=NESTED_LOCALS)
     return batched(ctx, ctx.n(500, 5000), lambda: make_case(ctx, g))
 
 
 def oracle_only(ctx):
-    g = Gen(ctx.seed * 1000003 + 18)
+    g = Gen(ctx.seed * 1000003 + 18, extra_locals=NESTED_LOCALS)
     return [f for f in batched(ctx, ctx.n(500, 5000), lambda: make_case(ctx, g), use_model=False) if f.kind == "oracle"]
 
 
